@@ -55,6 +55,73 @@ class CB:
         self.state_writes = ws
         self.transition = ws[0][0] if ws and all(w[0] is ws[0][0] for w in ws) else None
         self.ok = self.state_field is not None
+        self.roles = {}
+        if self.ok:
+            self._discover_roles()
+
+    # ---------------------------------------------------------------- roles (robust to renaming private fns)
+    def _is_circuit_method(self, fb):
+        if fb is None or fb.crate.name != CRATE or fb.arg_count < 1:
+            return False
+        t = fb.local_ty(1)
+        while t.get("k") == "ref":
+            t = fb.types[t["args"][0]]
+        return t.get("def") == self.circuit_adt
+
+    def _discover_roles(self):
+        """Name the circuit's methods by what they do rather than by what they are called:
+        try_acquire  = the bool function whose true edge admits the wrapped call;
+        record_failure / record_success = the circuit methods the service futures call on the true / false edge of
+                       FailureClassifier::classify (public trait method);
+        force_open / force_closed / reset = the circuit methods called by the public service methods of those names;
+        evaluate     = any other circuit method that calls the transition function and is called only by recorders."""
+        facts, tr = self.facts, self.tr
+        roles = self.roles
+        roles[self.admission.def_] = "try_acquire"
+        for sb in self.services:
+            for ch in descendants(facts, sb):
+                g = graph(ch)
+                for c in g.calls():
+                    tg = [facts.bodies.get(d) for d in c.targets_def()]
+                    tg = [t for t in tg if self._is_circuit_method(t) and t.def_ not in roles]
+                    if not tg:
+                        continue
+                    for e in dominating_edges(tr, ch, c.bb):
+                        if e["kind"] == "bool" and e["node"][0] == "call" and tr.call_of(e["node"]).name == "classify" and "via" not in e:
+                            for t in tg:
+                                roles.setdefault(t.def_, "record_failure" if e["label"] == "true" else "record_success")
+        svc_adts = {sb.types[sb.impl["self_ty"]].get("def") for sb in self.services if sb.impl}
+        for b in facts.crates[CRATE].bodies:
+            root = facts.bodies.get(b.root) if getattr(b, "root", None) else b
+            root = root or b
+            nm = root.def_.split("::")[-1]
+            if nm not in ("force_open", "force_closed", "reset") or root.j.get("vis") != "pub" or not root.impl:
+                continue
+            if root.types[root.impl["self_ty"]].get("def") not in svc_adts:
+                continue
+            for c in graph(b).calls():
+                for d in c.targets_def():
+                    t = facts.bodies.get(d)
+                    if self._is_circuit_method(t):
+                        roles.setdefault(t.def_, nm)
+        if self.transition is not None:
+            recs = {d for d, r in roles.items() if r.startswith("record_")}
+            for cs in tr.callers(self.transition.def_):
+                b = cs.g.b
+                if b.def_ in roles or not self._is_circuit_method(b):
+                    continue
+                callers = {c.g.b.def_ for c in tr.callers(b.def_)}
+                if callers and callers <= recs:
+                    roles[b.def_] = "evaluate"
+
+    def role(self, body):
+        return self.roles.get(body.def_) or body.def_.split("::")[-1]
+
+    def by_role(self, role):
+        for d, r in self.roles.items():
+            if r == role:
+                return self.facts.bodies.get(d)
+        return self.facts.bodies.get(self.circuit_adt + "::" + role)
 
     def state_arms(self, body):
         """variant -> entry block of the match arm on self.<state> in `body` (first such switch)"""
@@ -134,3 +201,44 @@ class CB:
                     tgt = n[1]
             out.append((b, cs, tgt))
         return out
+
+
+def check_no_evict_in_half_open(cb, rep, rule):
+    """the counter the half-open closing decision reads must not be decremented while half-open"""
+    facts, tr = cb.facts, cb.tr
+    # ---- the counter the closing decision reads must not be decremented while half-open
+    rs = cb.by_role("record_success")
+    close_fields = set()
+    if rs is not None:
+        for (b_, cs, tgt) in cb.transition_calls():
+            if b_ is rs and tgt == "Closed":
+                for e in dominating_edges(tr, rs, cs.bb):
+                    if e["kind"] == "bool" and mentions_field(tr, e["node"], "permitted_calls_in_half_open"):
+                        close_fields |= {x[2] for x in tr.walk(e["node"], limit=80) if x[0] == "field" and x[3] == cb.circuit_adt}
+    rep.note("closing decision reads %s" % sorted(close_fields))
+    ndec = 0
+    for f in sorted(close_fields):
+        for (b_, i, j, s_) in field_writes(facts, cb.circuit_adt, f):
+            val = peel(tr.stmt_value(b_, i, j))
+            dec = (val[0] == "call" and tr.call_of(val).name in ("saturating_sub", "wrapping_sub", "checked_sub")) or \
+                  (val[0] == "field" and peel(val[1])[0] == "binop" and peel(val[1])[1].startswith("Sub")) or (val[0] == "binop" and val[1].startswith("Sub"))
+            if not dec:
+                continue
+            ndec += 1
+            rep.saw(b_)
+            okc = False
+            for e in dominating_edges(tr, b_, i):
+                if e["kind"] == "bool" and e["label"] == "true":
+                    cm = normalise_cmp(tr, e["node"])
+                    if cm and cm[0] == "Eq" and (mentions_field(tr, cm[1], cb.state_field) or mentions_field(tr, cm[2], cb.state_field)):
+                        for side in (cm[1], cm[2]):
+                            if any(x[0] == "agg" and tr.agg_of(x)[1].get("variant") == "Closed" for x in tr.walk(side, limit=20)) or \
+                               any(x[0] == "const" and "Closed" in str(x[1]) for x in tr.walk(side, limit=20)):
+                                okc = True
+                if e["kind"] == "enum" and e["label"] == "Closed" and mentions_field(tr, e["node"], cb.state_field):
+                    okc = True
+            rep.ob(rule, skey(b_, "decrement.%s" % f), okc, where(b_, i, j),
+                   "%s (read by the closing decision) is decremented only while the breaker is Closed" % f if okc else
+                   "%s, which the half-open closing decision compares with permitted_calls_in_half_open, can be decremented while half-open "
+                   "(window eviction): with a window smaller than the permitted trials the breaker never decides and keeps admitting trial calls" % f)
+    return ndec
